@@ -64,8 +64,10 @@ func failingReturn(info *types.Info, ret *ast.ReturnStmt) bool {
 // not a failing return.  Leaves under `if err != nil { … }` count as failing.
 func earlyLeave(info *types.Info, stmts []ast.Stmt) ast.Node {
 	var found ast.Node
-	var visit func(n ast.Node, breakCaptured, failing bool)
-	visit = func(n ast.Node, breakCaptured, failing bool) {
+	// breakCaptured: an enclosing loop/switch/select of the inspected statements takes an unlabelled break;
+	// contCaptured: an enclosing loop of the inspected statements takes an unlabelled continue
+	var visit func(n ast.Node, breakCaptured, contCaptured, failing bool)
+	visit = func(n ast.Node, breakCaptured, contCaptured, failing bool) {
 		if n == nil || found != nil {
 			return
 		}
@@ -81,7 +83,11 @@ func earlyLeave(info *types.Info, stmts []ast.Stmt) ast.Node {
 				if !breakCaptured || x.Label != nil {
 					found = x
 				}
-			case token.CONTINUE, token.GOTO:
+			case token.CONTINUE:
+				if !contCaptured || x.Label != nil {
+					found = x
+				}
+			case token.GOTO:
 				found = x
 			}
 			return
@@ -91,53 +97,53 @@ func earlyLeave(info *types.Info, stmts []ast.Stmt) ast.Node {
 			}
 			return
 		case *ast.IfStmt:
-			visit(x.Init, breakCaptured, failing)
+			visit(x.Init, breakCaptured, contCaptured, failing)
 			f := failing
 			for _, cj := range conjuncts(x.Cond) {
 				if isErrNonNilCond(info, cj) {
 					f = true
 				}
 			}
-			visit(x.Body, breakCaptured, f)
-			visit(x.Else, breakCaptured, failing)
+			visit(x.Body, breakCaptured, contCaptured, f)
+			visit(x.Else, breakCaptured, contCaptured, failing)
 			return
 		case *ast.ForStmt:
-			visit(x.Body, true, failing)
+			visit(x.Body, true, true, failing)
 			return
 		case *ast.RangeStmt:
-			visit(x.Body, true, failing)
+			visit(x.Body, true, true, failing)
 			return
 		case *ast.SwitchStmt:
-			visit(x.Body, true, failing)
+			visit(x.Body, true, contCaptured, failing)
 			return
 		case *ast.TypeSwitchStmt:
-			visit(x.Body, true, failing)
+			visit(x.Body, true, contCaptured, failing)
 			return
 		case *ast.SelectStmt:
-			visit(x.Body, true, failing)
+			visit(x.Body, true, contCaptured, failing)
 			return
 		case *ast.BlockStmt:
 			for _, s := range x.List {
-				visit(s, breakCaptured, failing)
+				visit(s, breakCaptured, contCaptured, failing)
 			}
 			return
 		case *ast.CaseClause:
 			for _, s := range x.Body {
-				visit(s, breakCaptured, failing)
+				visit(s, breakCaptured, contCaptured, failing)
 			}
 			return
 		case *ast.CommClause:
 			for _, s := range x.Body {
-				visit(s, breakCaptured, failing)
+				visit(s, breakCaptured, contCaptured, failing)
 			}
 			return
 		case *ast.LabeledStmt:
-			visit(x.Stmt, breakCaptured, failing)
+			visit(x.Stmt, breakCaptured, contCaptured, failing)
 			return
 		}
 	}
 	for _, s := range stmts {
-		visit(s, false, false)
+		visit(s, false, false, false)
 	}
 	return found
 }
